@@ -564,34 +564,115 @@ Definition text_layouts (nodes : list nnode) : list layout :=
 Definition texts_have_layouts (nodes : list nnode) : Prop :=
   forall n, In n nodes -> n_kind n = 1 -> exists l, n_layout n = Some l /\ layout_truthy l = true.
 
-Lemma vtt_groups_aux_general : forall nodes a, layout_truthy a = true -> texts_have_layouts nodes ->
-  vtt_groups_aux nodes true (Some a) = map Some (runs_last (a :: text_layouts nodes)).
+(* a STYLE START node that carries a layout opens the span of the text that follows: its layout equals the layout of the
+   next text node (what the readers produce: the text inside a positioned span carries the span's layout) *)
+Fixpoint spans_follow (nodes : list nnode) : Prop :=
+  match nodes with
+  | [] => True
+  | n :: t =>
+      (n_kind n <> 1 -> n_kind n <> 3 -> style_start (n_kind n) = true ->
+       forall l, n_layout n = Some l -> layout_truthy l = true ->
+       exists b, hd_error (text_layouts t) = Some b /\ layout_eqb l b = true)
+      /\ spans_follow t
+  end.
+
+Lemma runs_last_cons2 : forall a b t,
+  runs_last (a :: b :: t) = if layout_eqb b a then runs_last (b :: t) else a :: runs_last (b :: t).
+Proof. reflexivity. Qed.
+
+(* state "s non-empty, current layout a" (A), and state "current layout a is the layout of the next text node" (B: the
+   state right after a span opened a new group; s may still be empty) *)
+Lemma vtt_groups_aux_general : forall nodes, texts_have_layouts nodes -> spans_follow nodes ->
+  (forall a, layout_truthy a = true ->
+     vtt_groups_aux nodes true (Some a) = map Some (runs_last (a :: text_layouts nodes)))
+  /\ (forall has a b, layout_truthy a = true -> hd_error (text_layouts nodes) = Some b -> layout_eqb a b = true ->
+     vtt_groups_aux nodes has (Some a) = map Some (runs_last (text_layouts nodes))).
 Proof.
-  induction nodes as [|n t IH]; intros a Ta H.
-  - reflexivity.
+  induction nodes as [|n t IH]; intros H S.
+  - split; [reflexivity|]. intros has a b _ Hb. discriminate Hb.
   - assert (Ht : texts_have_layouts t) by (intros x Hx; apply H; right; exact Hx).
-    cbn [vtt_groups_aux]. unfold text_layouts. cbn [flat_map]. fold (text_layouts t).
+    destruct S as [Sn St]. destruct (IH Ht St) as [IHA IHB]. clear IH.
+    assert (TLn : n_kind n =? 1 = false -> text_layouts (n :: t) = text_layouts t).
+    { intros K. unfold text_layouts. cbn [flat_map]. rewrite K. reflexivity. }
     destruct (n_kind n =? 1) eqn:K.
-    + destruct (H n (or_introl eq_refl) ltac:(lia)) as (b & Eb & Tb). rewrite Eb.
-      cbn [opt_layout_truthy opt_layout_eqb andb app]. rewrite Ta. cbn [andb].
-      rewrite (IH b Tb Ht).
-      change (runs_last (a :: b :: text_layouts t)) with (if layout_eqb b a then runs_last (b :: text_layouts t) else a :: runs_last (b :: text_layouts t)).
-      destruct (layout_eqb b a); reflexivity.
-    + cbn [app]. destruct (n_kind n =? 3); [apply IH; assumption|]. destruct (n_kind n =? 2); apply IH; assumption.
+    + destruct (H n (or_introl eq_refl) ltac:(lia)) as (b & Eb & Tb).
+      assert (TL : text_layouts (n :: t) = b :: text_layouts t).
+      { unfold text_layouts. cbn [flat_map]. rewrite K, Eb. reflexivity. }
+      rewrite TL. split.
+      * intros a Ta. cbn [vtt_groups_aux]. rewrite K, Eb.
+        cbn [opt_layout_truthy opt_layout_eqb andb]. rewrite Ta. cbn [andb].
+        rewrite (IHA b Tb), runs_last_cons2. destruct (layout_eqb b a); reflexivity.
+      * intros has a b' Ta Hb Eab. cbn [hd_error] in Hb. inversion Hb; subst b'.
+        cbn [vtt_groups_aux]. rewrite K, Eb. cbn [opt_layout_truthy opt_layout_eqb].
+        rewrite (layout_eqb_sym b a), Eab. cbn [negb]. rewrite andb_false_r.
+        apply IHA. exact Tb.
+    + rewrite (TLn eq_refl). destruct (n_kind n =? 3) eqn:K3.
+      * split.
+        -- intros a Ta. cbn [vtt_groups_aux]. rewrite K, K3. apply IHA. exact Ta.
+        -- intros has a b Ta Hb Eab. cbn [vtt_groups_aux]. rewrite K, K3. eapply IHB; eassumption.
+      * assert (N1 : n_kind n <> 1) by lia. assert (N3 : n_kind n <> 3) by lia.
+        specialize (Sn N1 N3). split.
+        -- intros a Ta. cbn [vtt_groups_aux]. rewrite K, K3.
+           destruct (style_start (n_kind n)) eqn:SS; [|cbn [andb orb]; apply IHA; exact Ta].
+           cbn [andb opt_layout_truthy]. rewrite Ta. cbn [andb].
+           destruct (n_layout n) as [l|] eqn:El; [|cbn [opt_layout_truthy andb orb]; apply IHA; exact Ta].
+           cbn [opt_layout_truthy opt_layout_eqb].
+           destruct (layout_truthy l) eqn:Tl; [|cbn [andb orb]; apply IHA; exact Ta].
+           cbn [andb]. destruct (layout_eqb l a) eqn:Ela; cbn [negb orb]; [apply IHA; exact Ta|].
+           destruct (Sn eq_refl l eq_refl Tl) as (b & Hb & Elb).
+           rewrite (IHB _ l b Tl Hb Elb).
+           destruct (text_layouts t) as [|b' r] eqn:TLt; [discriminate Hb|]. cbn [hd_error] in Hb. inversion Hb; subst b'.
+           rewrite runs_last_cons2.
+           destruct (layout_eqb b a) eqn:Eba; [|reflexivity].
+           rewrite (layout_eqb_trans _ _ _ Elb Eba) in Ela. discriminate Ela.
+        -- intros has a b Ta Hb Eab. cbn [vtt_groups_aux]. rewrite K, K3.
+           assert (NoFlush : style_start (n_kind n) && has && opt_layout_truthy (Some a) && opt_layout_truthy (n_layout n)
+                             && negb (opt_layout_eqb (n_layout n) (Some a)) = false).
+           { destruct (style_start (n_kind n)) eqn:SS; [|reflexivity].
+             destruct (n_layout n) as [l|] eqn:El; [|cbn [opt_layout_truthy]; rewrite andb_false_r; reflexivity].
+             cbn [opt_layout_truthy opt_layout_eqb]. destruct (layout_truthy l) eqn:Tl; [|rewrite andb_false_r; reflexivity].
+             destruct (Sn eq_refl l eq_refl Tl) as (b' & Hb' & Elb). rewrite Hb in Hb'. inversion Hb'; subst b'.
+             rewrite (layout_eqb_sym a b) in Eab. rewrite (layout_eqb_trans _ _ _ Elb Eab). cbn [negb].
+             apply andb_false_r. }
+           rewrite NoFlush. eapply IHB; eassumption.
 Qed.
 
-(* a caption with at least one text node, every text node carrying a layout, any BREAK / STYLE nodes anywhere:
-   one cue per maximal run of equal text-node layouts *)
-Theorem vtt_split_by_layout_general : forall nodes, texts_have_layouts nodes -> text_layouts nodes <> [] ->
+(* a caption with at least one text node, every text node carrying a layout, any BREAK / STYLE nodes anywhere, every
+   positioned span opening on a text node of its own layout: one cue per maximal run of equal text-node layouts *)
+Theorem vtt_split_by_layout_general : forall nodes, texts_have_layouts nodes -> spans_follow nodes -> text_layouts nodes <> [] ->
   vtt_groups nodes = map Some (runs_last (text_layouts nodes)).
 Proof.
   intros nodes. unfold vtt_groups. generalize false.
-  induction nodes as [|n t IH]; intros has H Hn; [contradiction|].
+  induction nodes as [|n t IH]; intros has H S Hn; [contradiction|].
   assert (Ht : texts_have_layouts t) by (intros x Hx; apply H; right; exact Hx).
+  destruct S as [_ St].
   cbn [vtt_groups_aux]. unfold text_layouts in *. cbn [flat_map] in *. fold (text_layouts t) in *.
   destruct (n_kind n =? 1) eqn:K.
   - destruct (H n (or_introl eq_refl) ltac:(lia)) as (b & Eb & Tb). rewrite Eb in *.
     cbn [opt_layout_truthy andb app]. rewrite andb_false_r. cbn [andb].
-    apply vtt_groups_aux_general; assumption.
-  - cbn [app] in *. destruct (n_kind n =? 3); [apply IH; assumption|]. destruct (n_kind n =? 2); apply IH; assumption.
+    apply (proj1 (vtt_groups_aux_general t Ht St)). exact Tb.
+  - cbn [app] in *. destruct (n_kind n =? 3); [apply IH; assumption|].
+    cbn [opt_layout_truthy]. rewrite !andb_false_r. cbn [andb]. apply IH; assumption.
 Qed.
+
+(* without positioned spans (no STYLE node carries a layout) the hypothesis on spans holds trivially *)
+Lemma spans_follow_unpositioned : forall nodes,
+  (forall n, In n nodes -> n_kind n <> 1 -> n_kind n <> 3 -> n_layout n = None) -> spans_follow nodes.
+Proof.
+  induction nodes as [|n t IH]; intros H; [exact I|]. split.
+  - intros N1 N3 _ l El. rewrite (H n (or_introl eq_refl) N1 N3) in El. discriminate El.
+  - apply IH. intros x Hx. apply H. right. exact Hx.
+Qed.
+
+(* the fix's point: a positioned span that follows text of another layout opens in the NEXT cue - the group that is
+   flushed at the span's start node is the one of the text before it *)
+Theorem vtt_span_opens_next_group : forall k a l t, style_start k = true -> layout_truthy a = true -> layout_truthy l = true ->
+  layout_eqb l a = false ->
+  vtt_groups_aux (mkNode k (Some l) :: t) true (Some a) = Some a :: vtt_groups_aux t (style_tags k) (Some l).
+Proof.
+  intros k a l t SS Ta Tl E. cbn [vtt_groups_aux n_kind n_layout].
+  assert (K1 : k =? 1 = false) by (unfold style_start in SS; lia).
+  assert (K3 : k =? 3 = false) by (unfold style_start in SS; lia).
+  rewrite K1, K3, SS. cbn [opt_layout_truthy opt_layout_eqb andb]. rewrite Ta, Tl, E. reflexivity.
+Qed.
+
